@@ -66,7 +66,11 @@ def arrange(kind, n_slabs, sizes, rng, big):
     """Distribute duplicate-free ids over slabs in the given order kind.  Returns list of id lists."""
     n = sum(sizes)
     base = sorted(rng.sample(range(1, 40 * n + 40), n))
-    if big:
+    if big == 'huge':
+        # ids above 2^53 and closer together than the spacing of float64 there (CompaSO ids are uint64 bit fields): any
+        # comparison or search that goes through floating point confuses neighbours
+        base = [b + (1 << 56) for b in sorted(rng.sample(range(1, 3 * n + 3), n))]
+    elif big:
         base = [b + (1 << 40) for b in base]
     if kind == 'increasing':
         seq = base
@@ -132,7 +136,9 @@ def make_cases(ctx, scale=None):
             slabs.append({'ids': ids, 'legacy': bool(legacy and legacy[si]),
                           'parts': [rng.choice(pool) for _ in range(npart)]})
         cases.append({'kind': kind, 'slabs': slabs, 'serial': [[i, serial[i]] for i in all_ids], 'flags': dict(flags),
-                      'mt': mt, 'n_chunks': n_chunks, 'chunk': chunk, 'drop_ranks': drop_ranks, 'z': z})
+                      'mt': mt, 'n_chunks': n_chunks, 'chunk': chunk, 'drop_ranks': drop_ranks, 'z': z,
+                      # the halo id column as CompaSO / prepare_sim store it (uint64) next to int64 particle host ids
+                      'id_u8': big == 'huge' or (bool(big) and rng.random() < 0.5)})
 
     # 1. structured: every order kind x slab count x all 16 flag sets (sizes random, >= 1 halo per slab)
     nmax = 4 if quick else 6
@@ -176,6 +182,9 @@ def make_cases(ctx, scale=None):
     for sizes in ([16, 16], [8, 8, 8, 8], [32, 32], [64, 64]) if quick else ([16, 16], [8, 8, 8, 8], [32, 32], [64, 64], [30] * 16,
                                                                              [80] * 4, [50] * 3, [48] * 3, [128, 128]):
         add('slab_decreasing', list(sizes), rng.choice(flag_sets))
+    # 6c. uint64 halo ids above 2^53, densely spaced, next to int64 particle host ids (the stored dtypes of prepare_sim)
+    for kind in ('increasing', 'random', 'slab_decreasing', 'interleaved'):
+        add(kind, [rng.randrange(6, 14) for _ in range(2)], rng.choice(flag_sets), big='huge')
     # 7. larger tables
     for _ in range(3 if quick else 25):
         n_slabs = rng.randrange(2, 5)
@@ -237,7 +246,9 @@ def run_one(c, root, np, S, AbacusHOD, classify):
         pser += n
         slab = {'halos': h, 'particles': p}
         if s['legacy']:
-            slab['halo_overrides'] = S.LEGACY_VELDEV      # this file stores one velocity deviate per halo
+            slab['halo_overrides'] = dict(S.LEGACY_VELDEV)      # this file stores one velocity deviate per halo
+        if c.get('id_u8'):
+            slab['halo_overrides'] = dict(slab.get('halo_overrides') or {}, id=('u8', ()))
         slabs.append(slab)
     drop = ('ranksp', 'ranksr', 'ranksc') if c['drop_ranks'] else ()
     cfg = S.build(root, slabs, mt=c['mt'], withranks=bool(flags['want_ranks']), part_drop=drop,
